@@ -58,9 +58,19 @@ func vfEqStrs(a, b []string) bool {
 }
 
 // vfRunQueueSeq executes ops on a fresh queue and the reference; returns "" or (key, message).
-func vfRunQueueSeq(prefill int, ops []vfQOp) (string, string) {
+func vfRunQueueSeq(prefill int, ops []vfQOp) (key string, msg string) {
+	defer func() {
+		if p := recover(); p != nil {
+			key, msg = "panic", fmt.Sprintf("panic: %v (ops so far in the witness)", p)
+		}
+	}()
+	return vfRunQueueSeq2(prefill, ops)
+}
+
+func vfRunQueueSeq2(prefill int, ops []vfQOp) (string, string) {
 	q := NewUnAckQueue()
 	ref := &vfRefQ{}
+	scratch := &UnAckedStz{}
 	step := func(i int, op vfQOp) (string, string) {
 		before := append([]string(nil), ref.items...)
 		switch op.Op {
@@ -69,6 +79,16 @@ func vfRunQueueSeq(prefill int, ops []vfQOp) (string, string) {
 				return "push:error", fmt.Sprintf("step %d push returned %v", i, err)
 			}
 			ref.items = append(ref.items, op.Stz)
+		case "push-reuse":
+			// a caller that re-uses one scratch value for every push, and overwrites it afterwards:
+			// what is queued is the value at the time of the push
+			scratch.Stz = op.Stz
+			scratch.Id = 0
+			if err := q.Push(scratch); err != nil {
+				return "push:error", fmt.Sprintf("step %d push returned %v", i, err)
+			}
+			ref.items = append(ref.items, op.Stz)
+			scratch.Stz = "overwritten-after-push"
 		case "pop":
 			got := q.Pop()
 			if len(ref.items) == 0 {
@@ -188,7 +208,7 @@ func TestVf_C17(t *testing.T) {
 	}
 	n := vfkit.Pick(20000, 2000000)
 	r := vfkit.Rand(17)
-	opnames := []string{"push", "push", "push", "pop", "popn", "peek", "peekn", "empty"}
+	opnames := []string{"push", "push", "push-reuse", "pop", "popn", "peek", "peekn", "empty"}
 	for c := 0; c < n; c++ {
 		ln := 1 + r.Intn(200)
 		if c%4 == 0 {
@@ -204,7 +224,7 @@ func TestVf_C17(t *testing.T) {
 		for i := 0; i < ln; i++ {
 			op := vfQOp{Op: opnames[r.Intn(len(opnames))]}
 			switch op.Op {
-			case "push":
+			case "push", "push-reuse":
 				op.Stz = fmt.Sprintf("s%d-%d", c, i)
 				if emptied && size == 0 {
 					refilled = true
@@ -219,7 +239,10 @@ func TestVf_C17(t *testing.T) {
 					}
 				}
 			case "popn", "peekn":
-				switch r.Intn(6) {
+				switch r.Intn(7) {
+				case 6:
+					// "give me everything" idioms and the extreme ends of int
+					op.K = []int{int(^uint(0) >> 1), int(^uint(0)>>1) / 2, -int(^uint(0)>>1) - 1, 1 << 31, 1 << 40}[r.Intn(5)]
 				case 0:
 					op.K = -1 - r.Intn(5)
 				case 1:
